@@ -66,11 +66,12 @@ VARIABLES
   nfault,           \* injected faults so far
   ncancel,          \* cancel-jobs commands issued by the user (0 or 1)
   nresub,           \* resubmit-jobs commands issued by the user (0 or 1)
+  stuck,            \* node result files whose lock marker was left behind by a runner killed inside its critical section
   m,                \* the monitor
   path, elog        \* history (only when Log): action labels taken, events emitted
 
-vars == <<S, cfg, js, marker, bfile, hs, nodeFile, processed, jp, procs, npid, nuser, ended, nfault, ncancel, nresub, m, path, elog>>
-implvars == <<S, cfg, js, marker, bfile, hs, nodeFile, processed, jp, procs, nuser, ended, nfault, ncancel, nresub>>
+vars == <<S, cfg, js, marker, bfile, hs, nodeFile, processed, jp, procs, npid, nuser, ended, nfault, ncancel, nresub, stuck, m, path, elog>>
+implvars == <<S, cfg, js, marker, bfile, hs, nodeFile, processed, jp, procs, nuser, ended, nfault, ncancel, nresub, stuck>>
 
 J == JobsOf(S)
 NoFile == [jobs |-> <<>>, hb |-> <<>>]
@@ -139,7 +140,7 @@ Init ==
                 THEN [Idle EXCEPT !.kind = "submit-jobs", !.pc = "poll", !.pid = 1,
                                   !.lcfg = InitCfg("login"), !.wcfg = InitCfg("login"), !.ljs = InitJs(S), !.lbidx = 1]
                 ELSE Idle]
-  /\ npid = 1 /\ nuser = 0 /\ ended = FALSE /\ nfault = 0 /\ ncancel = 0 /\ nresub = 0
+  /\ npid = 1 /\ nuser = 0 /\ ended = FALSE /\ nfault = 0 /\ ncancel = 0 /\ nresub = 0 /\ stuck = {}
   /\ m = IF Monitor
            THEN MonSteps(S, MonInit(S),
                   << EvProc(1, "submit-jobs", FALSE, -1),
@@ -183,7 +184,7 @@ Promote(s) ==
                                    !.lcfg = c1, !.wcfg = c1, !.ljs = js, !.lbidx = js.bidx, !.act = js.ids])
             /\ Feed(<<"Promote", s, 0>>, <<EvStatus(P(s).pid, c1, js, marker, nodeFile, processed),
                       EvPromote(P(s).pid, host, TRUE, "", host, FALSE)>>)
-  /\ UNCHANGED <<S, js, marker, bfile, hs, nodeFile, processed, jp, npid, nuser, ended, nfault, ncancel, nresub>>
+  /\ UNCHANGED <<S, js, marker, bfile, hs, nodeFile, processed, jp, npid, nuser, ended, nfault, ncancel, nresub, stuck>>
 
 \* ---------------------------------------------------------------- R3 poll the scheduler once
 Poll(s) ==
@@ -198,7 +199,7 @@ Poll(s) ==
         /\ nfault' = nfault + 1
         /\ Set(s, [P(s) EXCEPT !.pc = "demote", !.exc = "ExecutionError"])
         /\ Feed(<<"PollFail", s, 7>>, [k \in 1..7 |-> [e |-> "squeue", ok |-> FALSE, pid |-> P(s).pid]])
-  /\ UNCHANGED <<S, cfg, js, marker, bfile, hs, nodeFile, processed, jp, npid, nuser, ended, ncancel, nresub>>
+  /\ UNCHANGED <<S, cfg, js, marker, bfile, hs, nodeFile, processed, jp, npid, nuser, ended, ncancel, nresub, stuck>>
 
 \* ---------------------------------------------------------------- R4 collection
 \* process_results(): take the processed-results lock and glob the node files.  When the last file has been moved
@@ -211,10 +212,18 @@ Glob(s) ==
             /\ Feed(<<"Glob", s, 0>>, <<EvRows(nodeFile, processed), [e |-> "collected", rows |-> <<>>]>>)
        ELSE /\ Set(s, [P(s) EXCEPT !.pc = "move", !.todo = todo, !.got = <<>>])
             /\ Feed(<<"Glob", s, 0>>, <<>>)
-  /\ UNCHANGED <<S, cfg, js, marker, bfile, hs, nodeFile, processed, jp, npid, nuser, ended, nfault, ncancel, nresub>>
+  /\ UNCHANGED <<S, cfg, js, marker, bfile, hs, nodeFile, processed, jp, npid, nuser, ended, nfault, ncancel, nresub, stuck>>
+
+\* the marker of a killed runner is never removed (no lock library breaks a marker of another host): the collection waits
+\* for the lock, times out, and the round ends with that exception before it has touched anything else
+MoveBlocked(s, b) ==
+  /\ P(s).pc = "move" /\ b \in P(s).todo /\ b \in stuck
+  /\ Set(s, [P(s) EXCEPT !.pc = "demote", !.exc = "Timeout"])
+  /\ Feed(<<"MoveBlocked", s, b>>, <<>>)
+  /\ UNCHANGED <<S, cfg, js, marker, bfile, hs, nodeFile, processed, jp, npid, nuser, ended, nfault, ncancel, nresub, stuck>>
 
 Move(s, b) ==
-  /\ P(s).pc = "move" /\ b \in P(s).todo
+  /\ P(s).pc = "move" /\ b \in P(s).todo /\ b \notin stuck
   /\ LET pr == processed \o nodeFile[b]
          nf == [nodeFile EXCEPT ![b] = <<>>]
          got1 == P(s).got \o nodeFile[b]
@@ -222,7 +231,7 @@ Move(s, b) ==
      /\ processed' = pr /\ nodeFile' = nf
      /\ Set(s, [P(s) EXCEPT !.todo = @ \ {b}, !.got = got1, !.pc = IF last THEN "cancel" ELSE "move"])
      /\ Feed(<<"Move", s, b>>, <<EvRows(nf, pr)>> \o (IF last THEN <<EvRows(nf, pr), [e |-> "collected", rows |-> got1]>> ELSE <<>>))
-  /\ UNCHANGED <<S, cfg, js, marker, bfile, hs, jp, npid, nuser, ended, nfault, ncancel, nresub>>
+  /\ UNCHANGED <<S, cfg, js, marker, bfile, hs, jp, npid, nuser, ended, nfault, ncancel, nresub, stuck>>
 
 \* one iteration of the `while need_to_rerun` loop body after process_results() returned
 CancelPass(s) ==
@@ -248,7 +257,7 @@ CancelPass(s) ==
         /\ Set(s, [p EXCEPT !.ljs = ljs1, !.newly = newly, !.canc = @ \o cseq, !.pending = crows, !.got = <<>>,
                             !.pc = IF crows # <<>> THEN "glob" ELSE "marker"])
         /\ Feed(<<"CancelPass", s, Len(crows)>>, Zip(1))
-  /\ UNCHANGED <<S, cfg, js, marker, bfile, hs, nodeFile, jp, npid, nuser, ended, nfault, ncancel, nresub>>
+  /\ UNCHANGED <<S, cfg, js, marker, bfile, hs, nodeFile, jp, npid, nuser, ended, nfault, ncancel, nresub, stuck>>
 
 \* ---------------------------------------------------------------- R5 submitter.lock
 MarkerTouch(s) ==
@@ -257,7 +266,7 @@ MarkerTouch(s) ==
        THEN Set(s, [P(s) EXCEPT !.pc = "demote", !.exc = "Exception"]) /\ UNCHANGED marker
        ELSE marker' = TRUE /\ Set(s, [P(s) EXCEPT !.pc = "group", !.gi = 1, !.subm = <<>>, !.blkd = {}])
   /\ Feed(<<"MarkerTouch", s, 0>>, <<>>)
-  /\ UNCHANGED <<S, cfg, js, bfile, hs, nodeFile, processed, jp, npid, nuser, ended, nfault, ncancel, nresub>>
+  /\ UNCHANGED <<S, cfg, js, bfile, hs, nodeFile, processed, jp, npid, nuser, ended, nfault, ncancel, nresub, stuck>>
 
 \* ---------------------------------------------------------------- R6 batches
 QueueFull(p) == S.maxnodes > 0 /\ Cardinality(p.act) >= S.maxnodes
@@ -279,7 +288,7 @@ NextGroup(s) ==
               THEN Set(s, [p EXCEPT !.gi = @ + 1])
               ELSE Set(s, [p EXCEPT !.pc = "batch", !.avail = AvailFor(p, p.gi)])
   /\ Feed(<<"NextGroup", s, 0>>, <<>>)
-  /\ UNCHANGED <<S, cfg, js, marker, bfile, hs, nodeFile, processed, jp, npid, nuser, ended, nfault, ncancel, nresub>>
+  /\ UNCHANGED <<S, cfg, js, marker, bfile, hs, nodeFile, processed, jp, npid, nuser, ended, nfault, ncancel, nresub, stuck>>
 
 \* one iteration of `while not queue.is_full() and available_jobs:` -- _make_batch, files, sbatch
 SubmitBatchX(s, fail) ==
@@ -291,7 +300,7 @@ SubmitBatchX(s, fail) ==
      IN IF QueueFull(p) \/ p.avail = <<>>
           THEN /\ Set(s, [p EXCEPT !.pc = "group", !.gi = @ + 1, !.avail = <<>>])
                /\ Feed(<<"SubmitBatch", s, 0>>, <<>>)
-               /\ UNCHANGED <<bfile, hs, nfault, ncancel, nresub>>
+               /\ UNCHANGED <<bfile, hs, nfault, ncancel, nresub, stuck>>
           ELSE LET r == MakeBatch(PP, p.avail)
                    b == p.lbidx
                    hb == [k \in 1..Len(r.batch) |-> SeqOf(p.ljs.rem[r.batch[k]])]
@@ -299,7 +308,7 @@ SubmitBatchX(s, fail) ==
                IN IF r.batch = <<>>
                     THEN /\ Set(s, [p EXCEPT !.avail = r.rest, !.blkd = @ \cup r.blocked])
                          /\ Feed(<<"SubmitBatch", s, 0>>, <<>>)
-                         /\ UNCHANGED <<bfile, hs, nfault, ncancel, nresub>>
+                         /\ UNCHANGED <<bfile, hs, nfault, ncancel, nresub, stuck>>
                     ELSE /\ b \in B          \* the model is bounded to MaxB batches
                          /\ bfile' = [bfile EXCEPT ![b] = [jobs |-> r.batch, hb |-> hb]]
                          \* sbatch fails on all 7 attempts: the batch is not outstanding, its jobs are still recorded as
@@ -314,7 +323,7 @@ SubmitBatchX(s, fail) ==
                                         jobs |-> r.batch, hb |-> hb, rows |-> rowsNow, opts |-> g.opts, run |-> g.run]
                             IN Feed(<<IF fail THEN "SubmitBatchFail" ELSE "SubmitBatch", s, IF fail THEN b ELSE 1>>,
                                     IF fail THEN <<cb, sbe, sbe, sbe, sbe, sbe, sbe, sbe>> ELSE <<cb, sbe>>)
-  /\ UNCHANGED <<S, cfg, js, marker, nodeFile, processed, jp, npid, nuser, ended, ncancel, nresub>>
+  /\ UNCHANGED <<S, cfg, js, marker, nodeFile, processed, jp, npid, nuser, ended, ncancel, nresub, stuck>>
 
 
 SubmitBatch(s) == SubmitBatchX(s, FALSE)
@@ -343,7 +352,7 @@ Persist(s) ==
             ELSE /\ cfg' = lcfg2 /\ js' = ljs1
                  /\ Set(s, [p EXCEPT !.pc = "check", !.lcfg = lcfg2, !.wcfg = lcfg2, !.ljs = ljs1])
                  /\ Feed(<<"Persist", s, IF need THEN 1 ELSE 0>>, <<EvStatus(p.pid, lcfg2, ljs1, marker, nodeFile, processed)>>)
-  /\ UNCHANGED <<S, marker, bfile, hs, nodeFile, processed, jp, npid, nuser, ended, nfault, ncancel, nresub>>
+  /\ UNCHANGED <<S, marker, bfile, hs, nodeFile, processed, jp, npid, nuser, ended, nfault, ncancel, nresub, stuck>>
 
 \* ---------------------------------------------------------------- R8/R9
 CheckComplete(s) ==
@@ -353,14 +362,14 @@ CheckComplete(s) ==
          force == ~allDone /\ p.ljs.ids = {}
      IN Set(s, [p EXCEPT !.pc = "unmark", !.done = allDone \/ force])
   /\ Feed(<<"CheckComplete", s, 0>>, <<>>)
-  /\ UNCHANGED <<S, cfg, js, marker, bfile, hs, nodeFile, processed, jp, npid, nuser, ended, nfault, ncancel, nresub>>
+  /\ UNCHANGED <<S, cfg, js, marker, bfile, hs, nodeFile, processed, jp, npid, nuser, ended, nfault, ncancel, nresub, stuck>>
 
 MarkerRemove(s) ==
   /\ P(s).pc = "unmark"
   /\ marker' = FALSE
   /\ Set(s, [P(s) EXCEPT !.pc = IF P(s).done THEN "summary" ELSE "demote"])
   /\ Feed(<<"MarkerRemove", s, 0>>, <<>>)
-  /\ UNCHANGED <<S, cfg, js, bfile, hs, nodeFile, processed, jp, npid, nuser, ended, nfault, ncancel, nresub>>
+  /\ UNCHANGED <<S, cfg, js, bfile, hs, nodeFile, processed, jp, npid, nuser, ended, nfault, ncancel, nresub, stuck>>
 
 \* ---------------------------------------------------------------- R10 completion
 ResRow(r) == <<r[1], IF r[2] = "0" THEN 0 ELSE 1, r[3], r[4], r[5], r[6]>>
@@ -377,14 +386,14 @@ Summary(s) ==
   \* _handle_completion returns Status.ERROR (exit code 1) when the number of results differs from the number of jobs
   /\ Set(s, [P(s) EXCEPT !.pc = IF S.hooks.teardown THEN "teardown" ELSE "markcomplete",
                          !.rc = IF Len(processed) # Cardinality(J) THEN 1 ELSE 0])
-  /\ UNCHANGED <<S, cfg, js, marker, bfile, hs, nodeFile, processed, jp, npid, nuser, ended, nfault, ncancel, nresub>>
+  /\ UNCHANGED <<S, cfg, js, marker, bfile, hs, nodeFile, processed, jp, npid, nuser, ended, nfault, ncancel, nresub, stuck>>
 
 \* _handle_completion: the teardown command, after the results summary and before the completion flag
 Teardown(s) ==
   /\ P(s).pc = "teardown"
   /\ Set(s, [P(s) EXCEPT !.pc = "markcomplete"])
   /\ Feed(<<"Teardown", s, 0>>, <<EvHook("teardown", P(s).pid, -1, "", nodeFile, processed)>>)
-  /\ UNCHANGED <<S, cfg, js, marker, bfile, hs, nodeFile, processed, jp, npid, nuser, ended, nfault, ncancel, nresub>>
+  /\ UNCHANGED <<S, cfg, js, marker, bfile, hs, nodeFile, processed, jp, npid, nuser, ended, nfault, ncancel, nresub, stuck>>
 
 MarkComplete(s) ==
   /\ P(s).pc = "markcomplete"
@@ -395,7 +404,7 @@ MarkComplete(s) ==
             /\ cfg' = c1
             /\ Set(s, [p EXCEPT !.pc = "demote", !.lcfg = c1, !.wcfg = c1])
             /\ Feed(<<"MarkComplete", s, 0>>, <<EvStatus(p.pid, c1, js, marker, nodeFile, processed)>>)
-  /\ UNCHANGED <<S, js, marker, bfile, hs, nodeFile, processed, jp, npid, nuser, ended, nfault, ncancel, nresub>>
+  /\ UNCHANGED <<S, js, marker, bfile, hs, nodeFile, processed, jp, npid, nuser, ended, nfault, ncancel, nresub, stuck>>
 
 \* ---------------------------------------------------------------- R11 demotion (the `finally` of every path)
 Demote(s) ==
@@ -406,7 +415,7 @@ Demote(s) ==
      /\ procs' = Gone(s, procs)
      /\ Feed(<<"Demote", s, 0>>, <<EvStatus(p.pid, c1, js, marker, nodeFile, processed),
                                    EvExit(p.pid, p.kind, IF p.exc # "" THEN 1 ELSE p.rc, p.exc)>>)
-  /\ UNCHANGED <<S, js, marker, bfile, hs, nodeFile, processed, jp, npid, nuser, ended, nfault, ncancel, nresub>>
+  /\ UNCHANGED <<S, js, marker, bfile, hs, nodeFile, processed, jp, npid, nuser, ended, nfault, ncancel, nresub, stuck>>
 
 \* the runner's `jade try-submit-jobs` returned: run-jobs exits, the batch leaves the queue
 NodeEnd(s) ==
@@ -415,7 +424,7 @@ NodeEnd(s) ==
      /\ hs' = h1
      /\ Set(s, Idle)
      /\ Feed(<<"NodeEnd", s, 0>>, <<EvExit(P(s).pid, "run-jobs", 0, ""), [e |-> "hpc", what |-> "end", b |-> s, active |-> Active(h1)]>>)
-  /\ UNCHANGED <<S, cfg, js, marker, bfile, nodeFile, processed, jp, npid, nuser, ended, nfault, ncancel, nresub>>
+  /\ UNCHANGED <<S, cfg, js, marker, bfile, nodeFile, processed, jp, npid, nuser, ended, nfault, ncancel, nresub, stuck>>
 
 \* ---------------------------------------------------------------- the HPC and the nodes
 StartBatch(b) ==
@@ -430,7 +439,7 @@ StartBatch(b) ==
                                         !.depth = IF Len(jobs) < maxw THEN Len(jobs) ELSE maxw,
                                         !.nrem = [k \in 1..Len(jobs) |-> ToSet(bfile[b].hb[k])]])
         /\ Feed(<<"StartBatch", b, 0>>, <<[e |-> "hpc", what |-> "start", b |-> b, active |-> Active(h1)], EvProc(npid + 1, "run-jobs", FALSE, b)>>)
-  /\ UNCHANGED <<S, cfg, js, marker, bfile, nodeFile, processed, jp, nuser, ended, nfault, ncancel, nresub>>
+  /\ UNCHANGED <<S, cfg, js, marker, bfile, nodeFile, processed, jp, nuser, ended, nfault, ncancel, nresub, stuck>>
 
 \* start queued jobs into free slots, in queue order, skipping blocked ones (JobQueue.submit / process_queue)
 \* returns [queue, outst, started (sequence)]
@@ -454,12 +463,12 @@ NodeSetup(s) ==
   /\ s \in B /\ P(s).pc = "nsetup"
   /\ Set(s, [P(s) EXCEPT !.pc = "ninit"])
   /\ Feed(<<"NodeSetup", s, 0>>, <<EvHook("nsetup", P(s).pid, P(s).b, S.grp[bfile[P(s).b].jobs[1]], nodeFile, processed)>>)
-  /\ UNCHANGED <<S, cfg, js, marker, bfile, hs, nodeFile, processed, jp, npid, nuser, ended, nfault, ncancel, nresub>>
+  /\ UNCHANGED <<S, cfg, js, marker, bfile, hs, nodeFile, processed, jp, npid, nuser, ended, nfault, ncancel, nresub, stuck>>
 NodeTeardown(s) ==
   /\ s \in B /\ P(s).pc = "nteardown"
   /\ Set(s, [P(s) EXCEPT !.pc = "ntry"])
   /\ Feed(<<"NodeTeardown", s, 0>>, <<EvHook("nteardown", P(s).pid, P(s).b, S.grp[bfile[P(s).b].jobs[1]], nodeFile, processed)>>)
-  /\ UNCHANGED <<S, cfg, js, marker, bfile, hs, nodeFile, processed, jp, npid, nuser, ended, nfault, ncancel, nresub>>
+  /\ UNCHANGED <<S, cfg, js, marker, bfile, hs, nodeFile, processed, jp, npid, nuser, ended, nfault, ncancel, nresub, stuck>>
 
 NodeInit(s) ==
   /\ s \in B /\ P(s).pc = "ninit"
@@ -470,13 +479,13 @@ NodeInit(s) ==
      IN /\ Set(s, [p EXCEPT !.pc = "nwait", !.queue = r.queue, !.outst = r.outst, !.nrem = nremF])
         /\ jp' = [j \in J |-> IF j \in ToSet(r.started) THEN "running" ELSE jp[j]]
         /\ Feed(<<"NodeInit", s, Len(r.started)>>, LaunchEvents(p.pid, p.b, r.started, 0, SeqOf(NamesOnDisk(nodeFile, processed))))
-  /\ UNCHANGED <<S, cfg, js, marker, bfile, hs, nodeFile, processed, npid, nuser, ended, nfault, ncancel, nresub>>
+  /\ UNCHANGED <<S, cfg, js, marker, bfile, hs, nodeFile, processed, npid, nuser, ended, nfault, ncancel, nresub, stuck>>
 
 JobExit(j) ==
   /\ j \in J /\ jp[j] = "running"
   /\ jp' = [jp EXCEPT ![j] = "exited"]
   /\ Feed(<<"JobExit", j, 0>>, <<[e |-> "jobexit", job |-> j, rc |-> S.rc[j]]>>)
-  /\ UNCHANGED <<S, cfg, js, marker, bfile, hs, nodeFile, processed, procs, npid, nuser, ended, nfault, ncancel, nresub>>
+  /\ UNCHANGED <<S, cfg, js, marker, bfile, hs, nodeFile, processed, procs, npid, nuser, ended, nfault, ncancel, nresub, stuck>>
 
 \* JobQueue._check_completions as a fixpoint.  st = [outst, queue, nrem, failed, rows (appended, in order), fin (set)]
 \* isDoneF(j): the job's process has exited, or the job was canceled by this queue
@@ -531,7 +540,7 @@ NodePoll(s) ==
                                   !.pc = IF r.queue = <<>> /\ r.outst = <<>> THEN (IF S.hooks.nteardown THEN "nteardown" ELSE "ntry") ELSE "nwait"])
               /\ Feed(<<"NodePoll", s, Len(c.rows) + Len(r.started)>>, RowEvents(1, nodeFile[p.b])
                       \o LaunchEvents(p.pid, p.b, r.started, Len(c.outst), SeqOf(NamesOnDisk(nf, processed))))
-  /\ UNCHANGED <<S, cfg, js, marker, bfile, hs, processed, npid, nuser, ended, nfault, ncancel, nresub>>
+  /\ UNCHANGED <<S, cfg, js, marker, bfile, hs, processed, npid, nuser, ended, nfault, ncancel, nresub, stuck>>
 
 \* all jobs of the batch ended: the runner runs `jade try-submit-jobs` and waits for it
 NodeTry(s) ==
@@ -540,7 +549,7 @@ NodeTry(s) ==
   /\ procs' = [procs EXCEPT ![s].pc = "nwaittry",
                             ![TrySlot(s)] = [Idle EXCEPT !.kind = "try-submit-jobs", !.pc = "promote", !.pid = npid + 1, !.b = s]]
   /\ Feed(<<"NodeTry", s, 0>>, <<EvProc(npid + 1, "try-submit-jobs", TRUE, s)>>)
-  /\ UNCHANGED <<S, cfg, js, marker, bfile, hs, nodeFile, processed, jp, nuser, ended, nfault, ncancel, nresub>>
+  /\ UNCHANGED <<S, cfg, js, marker, bfile, hs, nodeFile, processed, jp, nuser, ended, nfault, ncancel, nresub, stuck>>
 
 
 \* ---------------------------------------------------------------- injected faults (FaultKinds, MaxFaults)
@@ -586,7 +595,7 @@ Kill(s) ==
                                           [e |-> "kill", pid |-> p.pid]>>)
           ELSE /\ UNCHANGED bfile
                /\ Feed(<<"Kill", s, 0>>, <<[e |-> "kill", pid |-> p.pid]>>)
-  /\ UNCHANGED <<S, cfg, js, marker, hs, nodeFile, processed, jp, npid, nuser, ended, ncancel, nresub>>
+  /\ UNCHANGED <<S, cfg, js, marker, hs, nodeFile, processed, jp, npid, nuser, ended, ncancel, nresub, stuck>>
 
 \* the node of a running batch disappears (killed, walltime): runner, its nested try-submit-jobs and its job processes die;
 \* rows already appended stay
@@ -603,8 +612,23 @@ NodeKill(b) ==
         /\ procs' = [procs EXCEPT ![RunSlot(b)] = Idle, ![TrySlot(b)] = Idle]
         /\ jp' = [j \in J |-> IF j \in bj /\ jp[j] \in {"running", "exited"} THEN "none" ELSE jp[j]]
         /\ Feed(<<"NodeKill", b, 0>>, evs)
-  /\ UNCHANGED <<S, cfg, js, marker, bfile, nodeFile, processed, npid, nuser, ended, ncancel, nresub>>
+  /\ UNCHANGED <<S, cfg, js, marker, bfile, nodeFile, processed, npid, nuser, ended, ncancel, nresub, stuck>>
 
+
+\* ... the same while the runner is inside ResultsAggregator._do_action_under_lock around a row append (the node file
+\* exists already): the marker results_batch_N.csv.lock stays (known finding K1)
+NodeKillLocked(b) ==
+  /\ CanFault("nodekill-locked") /\ hs[b] = "running" /\ P(RunSlot(b)).kind = "run-jobs" /\ nodeFile[b] # <<>>
+  /\ P(RunSlot(b)).pc = "nwait" /\ \E j \in ToSet(P(RunSlot(b)).outst) : jp[j] = "exited"
+  /\ nfault' = nfault + 1 /\ stuck' = stuck \cup {b}
+  /\ LET h1 == [hs EXCEPT ![b] = "killed"]
+         bj == ToSet(bfile[b].jobs)
+     IN /\ hs' = h1
+        /\ procs' = [procs EXCEPT ![RunSlot(b)] = Idle, ![TrySlot(b)] = Idle]
+        /\ jp' = [j \in J |-> IF j \in bj /\ jp[j] \in {"running", "exited"} THEN "none" ELSE jp[j]]
+        /\ Feed(<<"NodeKillLocked", b, 0>>, <<[e |-> "nodekill", pid |-> P(RunSlot(b)).pid],
+                                              [e |-> "hpc", what |-> "kill", b |-> b, active |-> Active(h1)]>>)
+  /\ UNCHANGED <<S, cfg, js, marker, bfile, nodeFile, processed, npid, nuser, ended, ncancel, nresub>>
 
 \* ---------------------------------------------------------------- cancel-jobs (cli/cancel_jobs.py, JobSubmitter.cancel_jobs)
 \* UserCancel: the user runs `jade cancel-jobs <output>` on the login host, at any moment, once.
@@ -613,7 +637,7 @@ UserCancel ==
   /\ ncancel' = 1 /\ npid' = npid + 1
   /\ Set(CSLOT, [Idle EXCEPT !.kind = "cancel-jobs", !.pc = "cpromote", !.pid = npid + 1])
   /\ Feed(<<"UserCancel", CSLOT, 0>>, <<EvProc(npid + 1, "cancel-jobs", FALSE, -1)>>)
-  /\ UNCHANGED <<S, cfg, js, marker, bfile, hs, nodeFile, processed, jp, nuser, ended, nfault, nresub>>
+  /\ UNCHANGED <<S, cfg, js, marker, bfile, hs, nodeFile, processed, jp, nuser, ended, nfault, nresub, stuck>>
 
 \* `for _ in range(60): deserialize(try_promote...)`: refused -> sleep 1 s and try again
 CPromote(s) ==
@@ -628,7 +652,7 @@ CPromote(s) ==
                                    !.todo = js.ids])
             /\ Feed(<<"CPromote", s, 1>>, <<EvStatus(P(s).pid, c1, js, marker, nodeFile, processed),
                                             EvPromote(P(s).pid, "login", TRUE, "", "login", FALSE)>>)
-  /\ UNCHANGED <<S, js, marker, bfile, hs, nodeFile, processed, jp, npid, nuser, ended, nfault, ncancel, nresub>>
+  /\ UNCHANGED <<S, js, marker, bfile, hs, nodeFile, processed, jp, npid, nuser, ended, nfault, ncancel, nresub, stuck>>
 
 \* scancel of the next persisted id (in the persisted order): a pending batch leaves the queue, a running one is killed
 \* with everything on its node; a batch that already left the queue makes scancel fail (ignored)
@@ -653,7 +677,7 @@ CScancel(s) ==
                                          ![TrySlot(b)] = IF running THEN Idle ELSE @]
                /\ jp' = [j \in J |-> IF running /\ j \in bj /\ jp[j] \in {"running", "exited"} THEN "none" ELSE jp[j]]
                /\ Feed(<<"CScancel", s, b>>, <<[e |-> "scancel", b |-> b]>> \o kills \o hev)
-  /\ UNCHANGED <<S, cfg, js, marker, bfile, nodeFile, processed, npid, nuser, ended, nfault, ncancel, nresub>>
+  /\ UNCHANGED <<S, cfg, js, marker, bfile, nodeFile, processed, npid, nuser, ended, nfault, ncancel, nresub, stuck>>
 
 CMark(s) ==
   /\ s = CSLOT /\ P(s).pc = "cmark"
@@ -661,7 +685,7 @@ CMark(s) ==
      /\ cfg' = c1
      /\ Set(s, [P(s) EXCEPT !.pc = "cdemote", !.lcfg = c1, !.wcfg = c1])
      /\ Feed(<<"CMark", s, 0>>, <<EvStatus(P(s).pid, c1, js, marker, nodeFile, processed)>>)
-  /\ UNCHANGED <<S, js, marker, bfile, hs, nodeFile, processed, jp, npid, nuser, ended, nfault, ncancel, nresub>>
+  /\ UNCHANGED <<S, js, marker, bfile, hs, nodeFile, processed, jp, npid, nuser, ended, nfault, ncancel, nresub, stuck>>
 
 \* demote; on an already complete submission that is all (exit 0); otherwise sleep 15 s and run try-submit-jobs
 CDemote(s) ==
@@ -673,7 +697,7 @@ CDemote(s) ==
      /\ Feed(<<"CDemote", s, IF done THEN 0 ELSE 1>>,
              <<EvStatus(P(s).pid, c1, js, marker, nodeFile, processed)>>
              \o (IF done THEN <<EvExit(P(s).pid, "cancel-jobs", 0, "")>> ELSE <<>>))
-  /\ UNCHANGED <<S, js, marker, bfile, hs, nodeFile, processed, jp, npid, nuser, ended, nfault, ncancel, nresub>>
+  /\ UNCHANGED <<S, js, marker, bfile, hs, nodeFile, processed, jp, npid, nuser, ended, nfault, ncancel, nresub, stuck>>
 
 CTrySpawn(s) ==
   /\ s = CSLOT /\ P(s).pc = "ctry" /\ P(CTRY).kind = "none"
@@ -681,14 +705,14 @@ CTrySpawn(s) ==
   /\ procs' = [procs EXCEPT ![s].pc = "cwait",
                             ![CTRY] = [Idle EXCEPT !.kind = "try-submit-jobs", !.pc = "promote", !.pid = npid + 1]]
   /\ Feed(<<"CTrySpawn", s, 0>>, <<EvProc(npid + 1, "try-submit-jobs", TRUE, -1)>>)
-  /\ UNCHANGED <<S, cfg, js, marker, bfile, hs, nodeFile, processed, jp, nuser, ended, nfault, ncancel, nresub>>
+  /\ UNCHANGED <<S, cfg, js, marker, bfile, hs, nodeFile, processed, jp, nuser, ended, nfault, ncancel, nresub, stuck>>
 
 \* the nested try-submit-jobs returned: cancel-jobs exits with its return code
 CEnd(s) ==
   /\ s = CSLOT /\ P(s).pc = "cend"
   /\ Set(s, Idle)
   /\ Feed(<<"CEnd", s, 0>>, <<EvExit(P(s).pid, "cancel-jobs", P(s).rc, "")>>)
-  /\ UNCHANGED <<S, cfg, js, marker, bfile, hs, nodeFile, processed, jp, npid, nuser, ended, nfault, ncancel, nresub>>
+  /\ UNCHANGED <<S, cfg, js, marker, bfile, hs, nodeFile, processed, jp, npid, nuser, ended, nfault, ncancel, nresub, stuck>>
 
 CancelStep(s) == CPromote(s) \/ CScancel(s) \/ CMark(s) \/ CDemote(s) \/ CTrySpawn(s) \/ CEnd(s)
 
@@ -716,7 +740,7 @@ UserResubmit ==
        /\ nresub' = 1 /\ npid' = npid + 1 /\ nuser' = 0        \* the new epoch gets its own recovery rounds
        /\ Set(LOGIN, [Idle EXCEPT !.kind = "resubmit-jobs", !.pc = "rpromote", !.pid = npid + 1, !.fl = f])
        /\ Feed(<<"UserResubmit", 0, FlagCode(f)>>, <<[EvProc(npid + 1, "resubmit-jobs", FALSE, -1) EXCEPT !.fl = f]>>)
-  /\ UNCHANGED <<S, cfg, js, marker, bfile, hs, nodeFile, processed, jp, ended, nfault, ncancel>>
+  /\ UNCHANGED <<S, cfg, js, marker, bfile, hs, nodeFile, processed, jp, ended, nfault, ncancel, stuck>>
 
 \* Cluster.deserialize(try_promote_to_submitter=True): nobody else is around on a complete, quiet submission
 RPromote(s) ==
@@ -726,7 +750,7 @@ RPromote(s) ==
      /\ Set(s, [P(s) EXCEPT !.pc = "rreset", !.lcfg = c1, !.wcfg = c1, !.ljs = js])
      /\ Feed(<<"RPromote", s, 0>>, <<EvStatus(P(s).pid, c1, js, marker, nodeFile, processed),
                                      EvPromote(P(s).pid, "login", TRUE, "", "login", FALSE)>>)
-  /\ UNCHANGED <<S, js, marker, bfile, hs, nodeFile, processed, jp, npid, nuser, ended, nfault, ncancel, nresub>>
+  /\ UNCHANGED <<S, js, marker, bfile, hs, nodeFile, processed, jp, npid, nuser, ended, nfault, ncancel, nresub, stuck>>
 
 \* the results are read (processed-results lock), then -- without a lock -- the rerun jobs' rows are pruned and
 \* prepare_for_resubmission resets states, blockers (those that are themselves rerun), counters and the completion flag
@@ -745,7 +769,7 @@ RReset(s) ==
      IN /\ processed' = pr /\ js' = js1 /\ cfg' = c1
         /\ Set(s, [p EXCEPT !.pc = "poll", !.lcfg = c1, !.wcfg = c1, !.ljs = js1, !.lbidx = js1.bidx, !.act = js1.ids])
         /\ Feed(<<"RReset", s, 0>>, <<EvRows(nodeFile, processed), EvStatus(p.pid, c1, js1, marker, nodeFile, pr)>>)
-  /\ UNCHANGED <<S, marker, bfile, hs, nodeFile, jp, npid, nuser, ended, nfault, ncancel, nresub>>
+  /\ UNCHANGED <<S, marker, bfile, hs, nodeFile, jp, npid, nuser, ended, nfault, ncancel, nresub, stuck>>
 
 \* the documented recovery: try-submit-jobs (also what show-status offers) when nothing is active
 UserTry ==
@@ -753,7 +777,7 @@ UserTry ==
   /\ npid' = npid + 1 /\ nuser' = nuser + 1
   /\ Set(LOGIN, [Idle EXCEPT !.kind = "try-submit-jobs", !.pc = "promote", !.pid = npid + 1])
   /\ Feed(<<"UserTry", 0, 0>>, <<EvProc(npid + 1, "try-submit-jobs", FALSE, -1)>>)
-  /\ UNCHANGED <<S, cfg, js, marker, bfile, hs, nodeFile, processed, jp, ended, nfault, ncancel, nresub>>
+  /\ UNCHANGED <<S, cfg, js, marker, bfile, hs, nodeFile, processed, jp, ended, nfault, ncancel, nresub, stuck>>
 
 \* the run is over (complete, or the user gave up): final checks of the monitor
 End ==
@@ -762,16 +786,16 @@ End ==
   \* (with an eager user the bounded number of rounds may have been spent while they were refused: an incomplete end is
   \*  then the bound's doing, not a verdict about recovery)
   /\ Feed(<<"End", 0, 0>>, <<[e |-> "end", full |-> (cfg.complete \/ ~EagerUser)]>>)
-  /\ UNCHANGED <<S, cfg, js, marker, bfile, hs, nodeFile, processed, jp, procs, npid, nuser, nfault, ncancel, nresub>>
+  /\ UNCHANGED <<S, cfg, js, marker, bfile, hs, nodeFile, processed, jp, procs, npid, nuser, nfault, ncancel, nresub, stuck>>
 
-SubStep(s) == \/ Promote(s) \/ Poll(s) \/ Glob(s) \/ (\E b \in B : Move(s, b)) \/ CancelPass(s) \/ MarkerTouch(s)
+SubStep(s) == \/ Promote(s) \/ Poll(s) \/ Glob(s) \/ (\E b \in B : Move(s, b) \/ MoveBlocked(s, b)) \/ CancelPass(s) \/ MarkerTouch(s)
               \/ NextGroup(s) \/ SubmitBatch(s) \/ SubmitBatchFail(s) \/ Persist(s) \/ CheckComplete(s) \/ MarkerRemove(s)
               \/ Summary(s) \/ Teardown(s) \/ MarkComplete(s) \/ Demote(s) \/ RPromote(s) \/ RReset(s)
 NodeStep(s) == NodeSetup(s) \/ NodeInit(s) \/ NodePoll(s) \/ NodeTeardown(s) \/ NodeTry(s) \/ NodeEnd(s)
 
 Next == \/ \E s \in Slots : SubStep(s) \/ NodeStep(s) \/ Kill(s) \/ CancelStep(s)
         \/ UserCancel \/ UserResubmit
-        \/ \E b \in B : NodeKill(b)
+        \/ \E b \in B : NodeKill(b) \/ NodeKillLocked(b)
         \/ \E b \in B : StartBatch(b)
         \/ \E j \in J : JobExit(j)
         \/ UserTry
